@@ -12,16 +12,20 @@ from vlib.harness import Sub
 PROPERTY = "C09"
 RULE = ("lifting cases: Vector (1-3 components, four dtypes, 0-d/1-d/2-d) x operator (+ - * / six comparisons, & | ^ ~, "
         "unary -, ** k, numpy functions sqrt/abs/negative/sum/mean/concatenate/...) x rhs kind (Vector of same or "
-        "different component count, Array, python number, np.float64, ndarray, Quantity; reflected forms k+v k-v k*v k/v "
+        "different component count, Array, python number, numpy scalar (float64/float32/int64/int32), ndarray, Quantity, "
+        "or one of the Vector's own components for in-place * and /; numpy functions with a second distinct Vector / Array / "
+        "number argument (add subtract multiply divide less maximum concatenate power sum(axis positional)); reflected forms k+v k-v k*v k/v "
         "and Array op v) x unit pairs; oracle = the same operation on each component Array (differential: equal values, "
-        "unit, dtype, shape, or both raise); different component counts must raise ValueError.  product cases: norm, "
+        "unit, dtype, shape, or both raise); different component counts must be rejected (and an in-place form must then leave the Vector unchanged).  product cases: norm, "
         "dot, cross compared as physical quantities with numpy on cgs values from the independent unit model, plus the "
         "algebraic laws a.b=b.a, axb=-bxa, a.(axb)=0, |axb|^2+(a.b)^2=|a|^2|b|^2 with operands in different compatible "
         "units at 50%.  norm histories: norm interleaved with in-place updates of the Vector, of single components, component assignment, mutation of a returned norm and unit conversion; after each step norm must equal sqrt(sum components^2).  non-trivial = operands in different compatible units, or <3 components, or a non-Vector rhs.")
 ASSUMPTIONS = [
     "component Array operations are the reference for the lifting law (they are decided by C02/C07/C10)",
     "dot/cross are generated with equal component counts and equal shapes; cross with 3 components",
-    "a pint Quantity or bare ndarray on the left of a Vector is not generated (pint/numpy dispatch decides those)",
+    "a pint Quantity, bare ndarray or numpy scalar on the left of a Vector is not generated (pint/numpy dispatch decides "
+    "those; the property quantifies over right-hand operand kinds)",
+    "'rejected' (different component counts) means any exception; the exception type is not judged",
 ]
 osyris = None
 
@@ -34,11 +38,16 @@ def prepare(ctx):
 ARITH = ["+", "-", "*", "/"]
 CMPS = ["<", "<=", ">", ">=", "==", "!="]
 FUNCS = ["sqrt", "abs", "negative", "sum", "mean", "concatenate", "square_mul", "isnan", "min_method", "max_method"]
+FUNCS2 = ["add", "subtract", "multiply", "divide", "less", "maximum", "concatenate2", "power2", "sum_axis_pos"]
+
+
+def op_is_muldiv(op):
+    return op in ("*", "/")
 
 
 @st.composite
 def lift_case_st(draw):
-    group = draw(st.sampled_from(["arith", "arith", "cmp", "logic", "unary", "func", "reflected", "inplace"]))
+    group = draw(st.sampled_from(["arith", "arith", "cmp", "logic", "unary", "func", "func2", "reflected", "inplace"]))
     nvec = draw(st.integers(1, 3))
     sa, sb = draw(vs.shape_pairs())
     ua, ub, rel = draw(vs.unit_pairs())
@@ -51,10 +60,14 @@ def lift_case_st(draw):
         op = draw(st.sampled_from(["&", "|", "^", "~"]))
         v = bvec(nvec, sa)
         n2 = nvec if draw(st.integers(0, 4)) else draw(st.integers(1, 3))
-        rk = draw(st.sampled_from(["V", "A"]))
-        rhs = bvec(n2, sb) if rk == "V" else {"k": "A", "dtype": "bool", "shape": sb, "unit": "dimensionless",
-                                             "vals": draw(st.lists(st.booleans(), min_size=vs.nelem(sb),
-                                                                   max_size=vs.nelem(sb)))}
+        rk = draw(st.sampled_from(["V", "V", "A", "nd", "num"]))
+        if rk == "V":
+            rhs = bvec(n2, sb)
+        elif rk == "num":
+            rhs = {"k": "num", "v": draw(st.booleans())}
+        else:
+            rhs = {"k": rk, "dtype": "bool", "shape": sb, "unit": "dimensionless",
+                   "vals": draw(st.lists(st.booleans(), min_size=vs.nelem(sb), max_size=vs.nelem(sb)))}
         return {"group": group, "op": op, "v": v, "rhs": rhs}
     v = draw(vs.vector_specs(units=[ua], dtypes=[dt], shape=sa, nvec=nvec))
     case = {"group": group, "v": v}
@@ -68,6 +81,21 @@ def lift_case_st(draw):
         case["axis"] = draw(st.sampled_from([None, None, 0]))
         return case
     dtb = draw(st.sampled_from(vs.DTYPES))
+    if group == "func2":
+        # numpy functions called with the Vector and a second, distinct argument
+        case["op"] = draw(st.sampled_from(FUNCS2))
+        if case["op"] in ("power2", "sum_axis_pos"):
+            return case
+        rk = draw(st.sampled_from(["V", "V", "V", "A", "num"])) if case["op"] != "concatenate2" else "V"
+        if rk == "V":
+            n2 = nvec if draw(st.integers(0, 3)) else draw(st.integers(1, 3))
+            case["rhs"] = draw(vs.vector_specs(units=[ub], dtypes=[dtb], shape=sb if case["op"] != "concatenate2" else sa,
+                                               nvec=n2))
+        elif rk == "A":
+            case["rhs"] = draw(vs.array_specs(units=[ub], dtypes=[dtb], shape=sb))
+        else:
+            case["rhs"] = {"k": "num", "v": draw(st.sampled_from([2, 3.5, -1.25]))}
+        return case
     if group == "reflected":
         case["op"] = draw(st.sampled_from(ARITH))
         rk = draw(st.sampled_from(["num", "num", "A"]))
@@ -84,6 +112,10 @@ def lift_case_st(draw):
         return case
     case["op"] = draw(st.sampled_from(ARITH if group in ("arith", "inplace") else CMPS))
     rk = draw(st.sampled_from(["V", "V", "V", "A", "num", "npf", "nd", "Q"]))
+    if group == "inplace" and op_is_muldiv(case["op"]) and draw(st.integers(0, 5)) == 0:
+        # the right-hand side is one of the Vector's own components (v *= v.x, v /= v.y)
+        case["rhs"] = {"k": "comp", "c": draw(st.integers(0, nvec - 1))}
+        return case
     if rk == "V":
         n2 = nvec if draw(st.integers(0, 5)) else draw(st.integers(1, 3))
         case["rhs"] = draw(vs.vector_specs(units=[ub], dtypes=[dtb], shape=sb, nvec=n2))
@@ -95,6 +127,16 @@ def lift_case_st(draw):
         case["rhs"] = {"k": rk, "v": draw(vs.magnitudes("float64", 1, allow_zero=False))[0]}
         if rk == "num" and draw(st.booleans()):
             case["rhs"]["v"] = draw(st.sampled_from([1, 2, -3]))
+        if rk == "npf":
+            # numpy scalars other than np.float64 are not python float subclasses
+            case["rhs"]["dt"] = draw(st.sampled_from(["float64", "float32", "int64", "int32"]))
+            if case["rhs"]["dt"].startswith("int"):
+                case["rhs"]["v"] = draw(st.sampled_from([1, 2, -3, 7]))
+        if group == "cmp" and draw(st.booleans()):
+            # a bare number only compares with a dimensionless Vector: keep the successful class alive
+            du = draw(st.sampled_from(um.FAMILIES["dimensionless"]))
+            for c in v["comps"]:
+                c["unit"] = du
     return case
 
 
@@ -151,6 +193,16 @@ def _func(name, x, axis):
     raise ValueError(name)
 
 
+def _func2(name, x, y):
+    if name == "concatenate2":
+        return np.concatenate([x, y])
+    if name == "power2":
+        return np.power(x, 2)
+    if name == "sum_axis_pos":
+        return np.sum(x, 0)
+    return getattr(np, name)(x, y)
+
+
 def _same_array(g, w):
     """Compare two osyris Arrays bit for bit. -> None or reason"""
     if not isinstance(g, osyris.Array):
@@ -203,26 +255,35 @@ def inplace_lifting(case, r):
     op = case["op"]
     v = vs.build(case["v"], osyris)
     ref = vs.build(case["v"], osyris)
-    rhs = vs.build(case["rhs"], osyris)
     rk = case["rhs"]["k"]
+    if rk == "comp":
+        # v op= v.<c>: every component must be combined with the value that component had before the statement
+        rhs = list(v._xyz.values())[case["rhs"]["c"]]
+        rhs_ref = list(ref._xyz.values())[case["rhs"]["c"]].copy()
+    else:
+        rhs = vs.build(case["rhs"], osyris)
+        rhs_ref = rhs
     nvec = len(case["v"]["comps"])
     r.label("group_inplace", f"nvec_{nvec}", "rhs_" + rk)
     if rk == "V" and len(case["rhs"]["comps"]) != nvec:
         r.label("nvec_mismatch")
+        before = [c.values.copy() for c in v._xyz.values()]
         try:
             _iapply(op, v, rhs)
             r.bad(["nvec-mismatch-accepted", "inplace", op], "no exception")
-        except ValueError:
-            pass
-        except Exception as e:
-            r.bad(["nvec-mismatch-wrong-exception", type(e).__name__], repr(e))
+        except Exception:
+            # rejected: the Vector must not have been half-updated
+            after = [c.values for c in v._xyz.values()]
+            if any(not np.array_equal(a, b, equal_nan=True) for a, b in zip(before, after)):
+                r.bad(["nvec-mismatch-rejected-after-update", "inplace", op],
+                      f"v {op}= rhs raised, but v changed from {[b.tolist() for b in before]} to {[a.tolist() for a in after]}")
         return
     r.nontrivial(rk != "V" or nvec < 3)
     with warnings.catch_warnings(), np.errstate(all="ignore"):
         warnings.simplefilter("ignore")
         want, w_exc = [], None
         for i, c in enumerate(ref._xyz.values()):
-            other = list(rhs._xyz.values())[i].copy() if rk == "V" else rhs
+            other = list(rhs._xyz.values())[i].copy() if rk == "V" else rhs_ref
             try:
                 want.append(_iapply(op, c, other))
             except Exception as e:
@@ -274,6 +335,9 @@ def lifting(case, r):
                     out.append(np.concatenate([c, c]))
                 else:
                     out.append(_func(op, c, case.get("axis")))
+            elif group == "func2":
+                other = list(rhs._xyz.values())[i] if rk == "V" else rhs
+                out.append(_func2(op, c, other))
             elif group == "reflected":
                 # a python number has no reflected + and - on Array: the number is a dimensionless quantity
                 lhs = osyris.Array(values=rhs) if rk == "num" else rhs
@@ -293,6 +357,8 @@ def lifting(case, r):
             if op == "concatenate":
                 return np.concatenate([v, v])
             return _func(op, v, case.get("axis"))
+        if group == "func2":
+            return _func2(op, v, rhs)
         if group == "reflected":
             return _apply(op, rhs, v)
         if op == "~":
@@ -313,9 +379,8 @@ def lifting(case, r):
             r.label("nvec_mismatch")
             r.nontrivial()
             if g_exc is None:
-                r.bad(["nvec-mismatch-accepted", op], f"{nvec}-vector {op} {n2}-vector returned {got!r}")
-            elif not isinstance(g_exc, ValueError):
-                r.bad(["nvec-mismatch-wrong-exception", type(g_exc).__name__], repr(g_exc))
+                r.bad(["nvec-mismatch-accepted", group, op], f"{nvec}-vector {op} {n2}-vector returned {got!r}")
+            # "rejected" = any exception (the operators raise ValueError today; the type is not part of the property)
             return
         try:
             want = expected_per_component()
@@ -333,6 +398,10 @@ def lifting(case, r):
         return
     if g_exc is not None:
         r.label("both_raise")
+        if type(g_exc) is not type(w_exc):
+            # refused, but not for the reason the components refuse (e.g. an AttributeError from the dispatch)
+            r.bad(["raise-mismatch-type", group, op, type(g_exc).__name__, type(w_exc).__name__],
+                  f"vector op raised {g_exc!r}, the component operation raised {w_exc!r}; {case}")
         return
     if not isinstance(got, osyris.Vector):
         r.bad(["result-not-vector", group, op], f"{type(got).__name__}; {case}")
@@ -377,8 +446,15 @@ def prod_case_st(draw):
         a = draw(vs.vector_specs(units=[ua], dtypes=["float64"], shape=[draw(st.integers(2, 5))], nvec=nvec, lo=-140, hi=140,
                                  specials=True))
         return {"what": what, "a": a, "b": a, "wide": True}
-    a = draw(vs.vector_specs(units=[ua], dtypes=[dta], shape=shape, nvec=nvec, lo=-2, hi=2))
-    b = draw(vs.vector_specs(units=[ub], dtypes=[dtb], shape=shape, nvec=nvec, lo=-2, hi=2))
+    if what == "norm" and draw(st.integers(0, 3)) == 0:
+        # integer components whose squares do not fit the storage type
+        dti = draw(st.sampled_from(["int32", "int64"]))
+        a = draw(vs.vector_specs(units=[ua], dtypes=[dti], shape=shape, nvec=nvec,
+                                 int_hi=100000 if dti == "int32" else 4000000000))
+        return {"what": what, "a": a, "b": a, "bigint": True}
+    mixed = draw(st.integers(0, 3)) == 0
+    a = draw(vs.vector_specs(units=[ua], dtypes=[dta], shape=shape, nvec=nvec, lo=-2, hi=2, mixed_dtypes=mixed))
+    b = draw(vs.vector_specs(units=[ub], dtypes=[dtb], shape=shape, nvec=nvec, lo=-2, hi=2, mixed_dtypes=mixed))
     return {"what": what, "a": a, "b": b}
 
 
@@ -398,9 +474,14 @@ def products(case, r):
     bc = [um.to_cgs(x, bu) for x in bv]
     ua, ub = case["a"]["comps"][0]["unit"], case["b"]["comps"][0]["unit"]
     compat_diff = ua != ub and um.same_dims(au, bu)
-    lowp = "float32" in (case["a"]["comps"][0]["dtype"], case["b"]["comps"][0]["dtype"])
+    dts = [c["dtype"] for c in case["a"]["comps"] + case["b"]["comps"]]
+    lowp = "float32" in dts
     rtol = 1e-4 if lowp else 1e-9
     r.label("what_" + what, f"nvec_{nvec}")
+    if len({c["dtype"] for c in case["a"]["comps"]}) > 1:
+        r.label("mixed_component_dtypes")
+    if case.get("bigint"):
+        r.label("norm_integer_squares_overflow")
     if compat_diff:
         r.label("compatible_different_units")
     r.nontrivial(compat_diff or nvec < 3)
